@@ -111,7 +111,19 @@ def rule_r1(ctx) -> List[R.Inst]:
                     why = f"boundaries skip lists ('{bad_flt[0]}') that the concatenation includes"
                 else:
                     why = f"boundary step is '{bad_elt[0].elt}', not previous + len(list)"
-    if ok_ix:
+    cur = _cursor_form(M.fn(ST + "._update").node)
+    if not ix and cur is not None:
+        ln = _assigns_to_self(fn.node, cur[1])
+        alts = SE.describe(ln[0].value, env.at.get(id(ln[0]), env.final)) if len(ln) == 1 else None
+        if alts and all(a.base in src_names and not a.filters and a.elt.replace(" ", "") in ("len(_)", "len(_.df)", "_.df.shape[0]", "len(_._df)") for a in alts):
+            ok_ix = True
+            ix = ln
+        elif alts:
+            why = f"the per-list row counts are taken from '{sorted(str(a) for a in alts)[0]}', not from the stacked lists in their order"
+            ix = ln
+    if ok_ix and cur is not None and ix and unparse(ix[0].targets[0]).endswith(cur[1]):
+        insts.append(R.ok("C12.R1", "_ixs", file, ix[0].lineno, idiom="row count of every list, in list order (the boundaries are their running sums)"))
+    elif ok_ix:
         insts.append(R.ok("C12.R1", "_ixs", file, ix[0].lineno, idiom="prefix sums 0, len0, len0+len1, ... in list order"))
     elif why == "boundary computation not recognised":
         insts.append(R.undec("C12.R1", "_ixs", file, ix[0].lineno if ix else line, why))
@@ -150,13 +162,45 @@ def rule_r1(ctx) -> List[R.Inst]:
         args = [unparse(a) for a in loops[0].iter.args]
         # zip stops at its shortest operand: (lists, ixs, ixs[1:]) pairs exactly like (lists, ixs[:-1], ixs[1:])
         good = args in (["self._unstacked", "self._ixs[:-1]", "self._ixs[1:]"], ["self._unstacked", "self._ixs", "self._ixs[1:]"])
-    if good:
+    if not good and cur is not None:
+        insts.append(R.ok("C12.R1", "_update.zip", file2, cur[0].lineno, idiom=f"zip(lists, row counts) with a running cursor: list i takes rows [sum of the counts before it, + its own count)"))
+    elif good:
         insts.append(R.ok("C12.R1", "_update.zip", file2, loops[0].lineno, idiom="zip(lists, ixs[:-1], ixs[1:])"))
     else:
         insts.append(R.viol("C12.R1", "_update.zip", file2, line2,
                             "write-back does not pair list i with the consecutive boundaries (ixs[i], ixs[i+1])",
                             construct=unparse(loops[0].iter) if loops else "no loop"))
     return insts
+
+
+def _cursor_form(fn_node):
+    """`stop = 0` … `for obj, n in zip(self._unstacked, self.<lens>): start, stop = stop, stop + n; <body>` -> (loop, lens attribute,
+    list variable, start name, stop name, rest of the body): the consecutive boundaries are carried by a running cursor instead of
+    being stored as prefix sums"""
+    for lp in walk_no_nested(fn_node):
+        if not (isinstance(lp, ast.For) and isinstance(lp.iter, ast.Call) and unparse(lp.iter.func) == "zip" and len(lp.iter.args) == 2 and
+                isinstance(lp.target, ast.Tuple) and len(lp.target.elts) == 2 and all(isinstance(t, ast.Name) for t in lp.target.elts)):
+            continue
+        a0, a1 = lp.iter.args
+        if not (unparse(a0) == "self._unstacked" and isinstance(a1, ast.Attribute) and unparse(a1.value) == "self" and lp.body):
+            continue
+        obj, n = (t.id for t in lp.target.elts)
+        st0 = lp.body[0]
+        if not (isinstance(st0, ast.Assign) and len(st0.targets) == 1 and isinstance(st0.targets[0], ast.Tuple) and len(st0.targets[0].elts) == 2 and
+                isinstance(st0.value, ast.Tuple) and len(st0.value.elts) == 2 and all(isinstance(t, ast.Name) for t in st0.targets[0].elts)):
+            continue
+        start, stop = (t.id for t in st0.targets[0].elts)
+        v0, v1 = st0.value.elts
+        if not (unparse(v0) == stop and unparse(v1).replace(" ", "") in (f"{stop}+{n}", f"{n}+{stop}")):
+            continue
+        init = [x for x in walk_no_nested(fn_node) if isinstance(x, ast.Assign) and len(x.targets) == 1 and unparse(x.targets[0]) == stop and
+                x.lineno < lp.lineno]
+        if len(init) != 1 or unparse(init[0].value) != "0":
+            continue
+        if any(isinstance(x, ast.Name) and x.id in (start, stop) and isinstance(x.ctx, ast.Store) for b in lp.body[1:] for x in ast.walk(b)):
+            continue
+        return lp, a1.attr, obj, start, stop, lp.body[1:]
+    return None
 
 
 # --------------------------------------------------------------------------- R2
@@ -296,10 +340,15 @@ def rule_r4(ctx) -> List[R.Inst]:
     fn = M.nfn(q, subst=True)
     file, line = fn_loc(M, q)
     loops = [_flat_zip(n) for n in walk_no_nested(fn.node) if isinstance(n, ast.For)]
-    if len(loops) != 1 or not isinstance(loops[0].target, ast.Tuple) or len(loops[0].target.elts) != 3:
+    cur = _cursor_form(M.fn(q).node)
+    if cur is not None and not (len(loops) == 1 and isinstance(loops[0].target, ast.Tuple) and len(loops[0].target.elts) == 3):
+        _, _, o, i, j, body = cur
+        loops = [cur[0]]
+    elif len(loops) != 1 or not isinstance(loops[0].target, ast.Tuple) or len(loops[0].target.elts) != 3:
         return [R.undec("C12.R4", "_update.projection", file, line, "write-back loop not recognised")]
-    o, i, j = [unparse(t) for t in loops[0].target.elts]
-    body = loops[0].body
+    else:
+        o, i, j = [unparse(t) for t in loops[0].target.elts]
+        body = loops[0].body
     # local single-assignment names are resolved into the final store; a transformation applied to the projected slice on the way
     # (astype, round, clip ...) is reported: the write-back hands each list its own rows of the stacked frame, values unchanged
     stores = [st for st in body if isinstance(st, ast.Assign) and isinstance(st.targets[0], ast.Attribute)]
